@@ -1197,6 +1197,27 @@ pub fn shard_run_c16(tier: &str, seed: u64, replay_case: Option<usize>, shard: S
             }
         }
     }
+    // a listed client's oversized upload: refused exactly as on a server without a list
+    if replay_case.is_none() && shard.mine(3) {
+        let probe = Fixture::new(Backend::Mem, seed, None);
+        if let Ok(probe) = probe {
+            let a = probe.clients[0];
+            drop(probe);
+            if let (Ok(mut fx), Ok(mut twin)) = (Fixture::new(Backend::Mem, seed, Some([a].into_iter().collect())), Fixture::new(Backend::Mem, seed, None)) {
+                for (route, ct) in [("add-version", CT_HISTORY), ("add-snapshot", CT_SNAPSHOT)] {
+                    let mk = |f: &Fixture| HttpReq::new("POST", &format!("/v1/client/{route}/{}", f.chains[0].last().unwrap())).header("X-Client-Id", &a.to_string()).header("Content-Type", ct).body(vec![3u8; LIMIT + 1]);
+                    let (r1, r2) = (fx.subj.http(&mk(&fx)), twin.subj.http(&mk(&twin)));
+                    cov.evaluations += 2;
+                    cov.hit(format!("listed-client-oversized-upload|{route}|status={}", r1.status));
+                    if r1.status != r2.status {
+                        out.found.push(found("C16", format!("a listed client's {route} upload of one byte more than 100 MiB was answered {} on the server with an allow-list but {} on a server without one", r1.status, r2.status), json!({"origin": "c16-oversized", "case": 0})));
+                        out.cov = cov;
+                        return out;
+                    }
+                }
+            }
+        }
+    }
     // listed clients' histories: server with a list vs server without
     let n_hist = if thorough { 1200 } else { 180 };
     for i in 0..n_hist {
@@ -1287,7 +1308,106 @@ fn socket_sample(prop: &str, seed: u64, n: usize, grams: &[Gram], cov: &mut Cov,
             return None;
         }
     };
-    socket_sample_at(prop, seed, n, grams, cov, &fx, &srv.addr, "over a real socket")
+    if let Some(f) = socket_sample_at(prop, seed, n, grams, cov, &fx, &srv.addr, "over a real socket") {
+        return Some(f);
+    }
+    if let Some(f) = many_in_flight(prop, &srv.addr, seed, cov, "an in-process HttpServer") {
+        return Some(f);
+    }
+    if prop == "C15" {
+        // an upload declared one byte above the limit that goes silent for 10.5 s after its first
+        // kilobyte and then sends the rest: refused (or cut off), never accepted, nothing stored
+        use crate::http::socket_request_two_parts;
+        for route in ["add-version", "add-snapshot"] {
+            let c = fx.clients[0];
+            // the socket server has its own empty storage: give the client a version first
+            let first = crate::http::socket_request(&srv.addr, &HttpReq::new("POST", &format!("/v1/client/add-version/{}", Uuid::nil())).header("X-Client-Id", &c.to_string()).header("Content-Type", CT_HISTORY).body(vec![9, 9]), crate::http::Framing::ContentLength, std::time::Duration::from_secs(20));
+            let v = first.header("X-Version-Id").and_then(|s| Uuid::parse_str(s).ok()).or_else(|| first.header("X-Parent-Version-Id").and_then(|s| Uuid::parse_str(s).ok())).unwrap_or(Uuid::nil());
+            let ct = if route == "add-version" { CT_HISTORY } else { CT_SNAPSHOT };
+            let req = HttpReq::new("POST", &format!("/v1/client/{route}/{v}")).header("X-Client-Id", &c.to_string()).header("Content-Type", ct).body(vec![5u8; LIMIT + 1]);
+            let read_state = || {
+                let r = if route == "add-version" {
+                    crate::http::socket_request(&srv.addr, &HttpReq::new("GET", &format!("/v1/client/get-child-version/{v}")).header("X-Client-Id", &c.to_string()), crate::http::Framing::ContentLength, std::time::Duration::from_secs(20))
+                } else {
+                    crate::http::socket_request(&srv.addr, &HttpReq::new("GET", "/v1/client/snapshot").header("X-Client-Id", &c.to_string()), crate::http::Framing::ContentLength, std::time::Duration::from_secs(20))
+                };
+                (r.status, r.header("X-Version-Id").map(|s| s.to_string()), r.body.len(), crate::dump::hash_bytes(&r.body))
+            };
+            let state_before = read_state();
+            let mut between = || std::thread::sleep(std::time::Duration::from_millis(10_500));
+            let resp = socket_request_two_parts(&srv.addr, &req, 1024, std::time::Duration::from_secs(60), &mut between);
+            cov.evaluations += 1;
+            cov.hit(format!("stalled-oversize|{route}|status={}", if resp.failure.is_some() { "closed".to_string() } else { resp.status.to_string() }));
+            let stored = read_state() != state_before;
+            if (resp.failure.is_none() && !(400..500).contains(&resp.status)) || stored {
+                return Some(found("C15", format!("a {route} upload declared one byte above the 100 MiB limit that paused 10.5 s after its first kilobyte was answered {} (what the server serves for it afterwards changed: {stored})", resp.describe()), json!({"origin": "stalled-oversize", "case": 0})));
+            }
+        }
+    }
+    None
+}
+
+/// A hundred uploads in progress at the same moment (heads and half of the bodies sent), other
+/// requests meanwhile, then the uploads complete and the server is idle again. C20: every answer
+/// forbids caching, whatever its status. C15: while busy and once idle again, an empty body is
+/// refused with a 4xx (not a 5xx) and a legal upload is accepted.
+fn many_in_flight(prop: &str, addr: &str, seed: u64, cov: &mut Cov, label: &str) -> Option<Found> {
+    use crate::http::{finish_held_uploads, hold_uploads, socket_request, Framing};
+    use std::time::Duration;
+    let mut rng = Rng::new(seed).fork(0xF117);
+    let clients: Vec<Uuid> = (0..140).map(|_| rng.uuid()).collect();
+    let nil = Uuid::nil();
+    let upload = |c: Uuid, body: Vec<u8>| HttpReq::new("POST", &format!("/v1/client/add-version/{nil}")).header("X-Client-Id", &c.to_string()).header("Content-Type", CT_HISTORY).body(body);
+    let probes = |c: Uuid| -> Vec<(HttpReq, &'static str)> {
+        vec![
+            (HttpReq::new("GET", "/"), "index"),
+            (HttpReq::new("GET", "/v1/client/snapshot").header("X-Client-Id", &c.to_string()), "get-snapshot"),
+            (HttpReq::new("GET", &format!("/v1/client/get-child-version/{nil}")).header("X-Client-Id", &c.to_string()), "get-child-version"),
+            (HttpReq::new("GET", "/v1/client/nowhere").header("X-Client-Id", &c.to_string()), "unknown-route"),
+            (HttpReq::new("POST", &format!("/v1/client/add-version/{nil}")).header("X-Client-Id", &c.to_string()).header("Content-Type", CT_HISTORY), "empty-body"),
+            (upload(c, vec![1, 2, 3, 4]), "legal-upload"),
+        ]
+    };
+    for phase in ["busy", "idle-again"] {
+        let held = if phase == "busy" { hold_uploads(addr, 100, &|i| upload(clients[i], vec![b'h'; 2000])) } else { vec![] };
+        // while full, more uploads are turned away or served
+        let base = if phase == "busy" { 100 } else { 120 };
+        for round in 0..(if phase == "busy" { 20 } else { 1 }) {
+            for (req, what) in probes(clients[base + round % 20]) {
+                let resp = socket_request(addr, &req, Framing::ContentLength, Duration::from_secs(20));
+                cov.evaluations += 1;
+                cov.hit(format!("in-flight|{phase}|{what}|status={}", if resp.failure.is_some() { "closed".to_string() } else { resp.status.to_string() }));
+                if resp.failure.is_some() {
+                    continue;
+                }
+                if prop == "C20" && !no_store(&resp) {
+                    return Some(found("C20", format!("{label}, {} uploads in progress: the response to {} does not forbid caching: {}", held.len(), req.describe(), resp.describe()), json!({"origin": "in-flight", "case": 60_000_000})));
+                }
+                if prop == "C15" {
+                    let bad = match what {
+                        "empty-body" => !(400..500).contains(&resp.status),
+                        "legal-upload" => !(resp.status == 200 || resp.status == 409),
+                        _ => resp.status >= 500,
+                    };
+                    if bad {
+                        return Some(found("C15", format!("{label}, {} ({} uploads in progress): {} was answered {}", phase, held.len(), req.describe(), resp.describe()), json!({"origin": "in-flight", "case": 60_000_000})));
+                    }
+                }
+            }
+        }
+        let done = finish_held_uploads(held);
+        if prop == "C15" {
+            if let Some(r) = done.iter().find(|r| r.failure.is_none() && r.status >= 500) {
+                return Some(found("C15", format!("{label}: one of 100 simultaneous legal uploads was answered {}", r.describe()), json!({"origin": "in-flight", "case": 60_000_001})));
+            }
+        }
+        if prop == "C20" {
+            if let Some(r) = done.iter().find(|r| r.failure.is_none() && !no_store(r)) {
+                return Some(found("C20", format!("{label}: the response to one of 100 simultaneous uploads does not forbid caching: {}", r.describe()), json!({"origin": "in-flight", "case": 60_000_001})));
+            }
+        }
+    }
+    None
 }
 
 /// The real executable (debug logging on, SQLite): a grammar sample, then - for C20 - every endpoint
@@ -1332,6 +1452,9 @@ fn binary_sample(prop: &str, seed: u64, n: usize, grams: &[Gram], cov: &mut Cov,
     }
     if !proc.alive() {
         return Some(found(prop, "the real executable (RUST_LOG=debug) exited while answering grammar requests".into(), json!({"origin": "executable", "case": 50_000_000})));
+    }
+    if let Some(f) = many_in_flight(prop, &addr, seed, cov, "the real executable") {
+        return Some(f);
     }
     if prop == "C20" {
         // some state first, then the storage goes away
